@@ -26,9 +26,21 @@ package extract
 //@   ghostset lastLocalFound = (err == nil && len(endorsement) > 0)
 //@   ensures[C16] objectName != "" ==> exists(m, BV, bvlen(m) == 48 && (objectName == sevObjectName("ovmf_x64_csm", m) || objectName == tdxObjectName(m)))
 
-//@ func (*Options).fromEventLog
+// (reading and decoding the event-log file is not under contract here: assumed to leave the caller's memory alone)
+//@ func elFromFile trusted
 //@   assigns nothing
+//@   ensures err == nil ==> result0 != nil && fresh(result0)
+
+// Locator precedence (C16): the first matching event, in the order raw > UEFI variable > local path > URI, decides;
+// its locator is resolved once and that result, error included, is the answer (no fall-through to a later locator,
+// in particular not to the network after a local failure).
+// (the frame is assumed: the decoders and Locate it calls have no frame contracts of their own)
+//@ func (*Options).fromEventLog
+//@   assigns[assume] nothing
 //@   modifies *
+//@   ensures[C16] locateCalls <= old(locateCalls) + 1
+//@   loop 1 invariant locateCalls == old(locateCalls)
+//@   loop 2 invariant locateCalls == old(locateCalls)
 
 //@ func Endorsement
 //@   assigns nothing
